@@ -394,9 +394,11 @@ _mtbl_decompress_zstd(
 {
 	size_t ret = 0;
 
-	if (input_size > INT_MAX)
-		return (mtbl_res_failure);
-
+	/*
+	 * No limit on input_size here: zstd takes size_t lengths, and the
+	 * compressed form of an incompressible input just below INT_MAX bytes
+	 * (which _mtbl_compress_zstd() accepts) is larger than INT_MAX.
+	 */
 	unsigned long long content_size = ZSTD_getFrameContentSize(input, input_size);
 	if (content_size == ZSTD_CONTENTSIZE_ERROR ||
 	    content_size == ZSTD_CONTENTSIZE_UNKNOWN)
